@@ -13,7 +13,8 @@ EXTENDS Integers, Sequences, FiniteSets, TLC, Json
 VARIABLE st
 Units == <<"\n", " \n", "\t\n", "\r\n", "\r", "\f", " \f", "(\f\n)", "  ", "\t", "(", "((", ")", "[", "[user, ", "user, ", "#", " #x", " # c\n", "x", "x ", "or ", " or a", " and a",
            " but not a", "a from ", "define ", "type t\n", "\ntype t", "\n    define a: b", "//", "/", "\"", "'", "'''", "r\"", "{", "1", "1.", ".", "-", "a-", "a.b/", ":", ",", "*", "<", "&&", "u+",
-           "\r\r\n", "\r \n", "\r\t\n", " \r \r\n", "\n\r"      \* carriage returns that a single trim of the line end leaves in front of the line feed
+           "\r\r\n", "\r \n", "\r\t\n", " \r \r\n", "\n\r",     \* carriage returns that a single trim of the line end leaves in front of the line feed
+           " # c\r", "# c\r", "  \r", "x # c\r  "     \* comments and blanks in front of a bare carriage return (the pre-pass keeps their columns)
            >>
 \* contexts: [prefix, suffix, name]
 Contexts == << [name |-> "top", prefix |-> "model\n  schema 1.1\n", suffix |-> "\ntype user\n"],
